@@ -117,6 +117,32 @@ func (f *Fussy) Scan(src interface{}) error {
 	return nil
 }
 
+// Status serialises itself; its NULL form is not its zero value (0 = active is stored as 0, unknown = -1 as NULL)
+type Status int64
+
+func (s Status) Value() (driver.Value, error) {
+	if s == -1 {
+		return nil, nil
+	}
+	return int64(s), nil
+}
+
+func (s *Status) Scan(src interface{}) error {
+	switch v := src.(type) {
+	case nil:
+		*s = -1
+	case int64:
+		*s = Status(v)
+	case []byte:
+		n, err := strconv.ParseInt(string(v), 10, 64)
+		*s = Status(n)
+		return err
+	default:
+		return fmt.Errorf("Status: cannot scan %T", src)
+	}
+	return nil
+}
+
 func eqDefault(a, b interface{}) bool { return deepEq(reflect.ValueOf(a), reflect.ValueOf(b)) }
 
 // deepEq is reflect.DeepEqual with time.Time compared by Equal and proto messages by proto.Equal.
@@ -261,6 +287,9 @@ func tables(s *sqlgen.Schema) []tbl {
 	add("t_jfussy", RowJSON[Fussy]{}, []interface{}{&RowJSON[Fussy]{1, Fussy{0}}, &RowJSON[Fussy]{2, Fussy{5}}}, tbl{})
 	add("t_sfussy", RowStr[Fussy]{}, []interface{}{&RowStr[Fussy]{1, Fussy{7}}}, tbl{})
 	add("t_bfussy", RowBin[*Fussy]{}, []interface{}{&RowBin[*Fussy]{1, nil}, &RowBin[*Fussy]{2, &Fussy{9}}}, tbl{noStr: true})
+	// a self-serialising non-pointer column whose NULL form is not its zero value
+	add("t_status", Row[Status]{}, mk[Status](-1, 0, 3), tbl{})
+	add("t_pstatus", Row[*Status]{}, mk[*Status](nil, p(Status(0)), p(Status(2))), tbl{})
 	add("t_wide", Wide{}, []interface{}{
 		&Wide{Id: 1},
 		&Wide{A: -3, Id: 2, B: p("b"), C: []byte("c"), D: times()[1], E: "e", F: p(1.5), G: 65535, H: "h"},
@@ -580,5 +609,5 @@ func describeFilter(f sqlgen.Filter) string {
 
 func init() {
 	reg.Register(&reg.Harness{Property: "C13", Name: "c13/codec", Level: "exploration", Run: run,
-		Rule: "one registered table per supported column kind (all int/uint widths, floats, bool, string, named scalars, []byte, time.Time, pointers to each, string/binary/json/implicitnull tags, proto-encoded message, a wide mixed table) x boundary values; for each row every combination of source representations of its SQL values (int64 / text []byte / typed replication ints / float32 / bool as 0-1 / string vs []byte / time as time.Time or text) is decoded by BuildStruct and by the change-log row parser and compared with the original; the filter made from a row's own values must match it; every filter (incl. pointer<->value forms, nil) shipped through real protobuf bytes is rejected or matches exactly the same rows"})
+		Rule: "one registered table per supported column kind (all int/uint widths, floats, bool, string, named scalars, []byte, time.Time, pointers to each, string/binary/json/implicitnull tags, self-serialising types incl. one whose NULL form is not its zero value, proto-encoded message, a wide mixed table) x boundary values; for each row every combination of source representations of its SQL values (int64 / text []byte / typed replication ints / float32 / bool as 0-1 / string vs []byte / time as time.Time or text) is decoded by BuildStruct and by the change-log row parser and compared with the original; the filter made from a row's own values must match it; every filter (incl. pointer<->value forms, nil) shipped through real protobuf bytes is rejected or matches exactly the same rows"})
 }
